@@ -174,31 +174,46 @@ def compare_with_model(ctx, bdir, metas, name='K-CLI(model)', check_created=True
         impl = cli_impl_trace(rc, out, outdir, None, stale, check_created)
         model = [x for x in tm.get('C %d' % m['cid'], [])]
         model = [x[:2] if x[0] == 'status' and x[1] == 'ABORT' else x for x in model if x[0] != 'outdir']
-        def wild(rows):
+        WANT_SEED = [None]
+        def wild(rows, is_model=False):
             # what is compared is the FRONT END's own logic: exit status, which files exist, their shape (rows, tokens per row), the vertex labels,
             # the layer headers, the number of realizations, the seed.  The numbers the solver computed (memberships, affinities, likelihoods,
             # iteration counts, termination reasons) are masked: that they are the library's is K-WRITE's business (binary vs the real library),
             # and a change of the numerics inside the library must not make this comparison fire.
             out = []
+            seed_tok = None
+            comment_toks = set()
             for r in rows:
+                if r[0] == 'file':
+                    out.append(r[:2])                    # which files exist (the number of lines includes presentation lines)
+                    continue
                 if r[0] != 'row':
                     out.append(r)
                     continue
                 name, idx, toks = r[1], int(r[2]), list(r[4:])
+                if toks and toks[0].startswith('#'):
+                    # comment lines are presentation, except that the info file must list the seed
+                    if name == 'run_info.dat':
+                        comment_toks.update(toks)
+                        if toks[:2] == ['#', 'Seed']:
+                            seed_tok = toks[-1]
+                    continue
+                if name == 'w_out.dat' and not (toks and files.is_number(toks[0])):
+                    continue                             # block headers (`a= 3`) are presentation
                 if name == 'run_info.dat':
-                    if toks[:2] == ['#', 'Duration'] or toks[:3] == ['#', 'Maximum', 'Likelihood']:
-                        toks = toks[:-1] + ['?']
-                    elif toks and toks[0] != '#':
-                        toks = toks[:1] + ['?'] * (len(toks) - 1)
-                elif toks[:3] == ['#', 'Max', 'likelihood=']:
-                    toks = toks[:3] + ['?'] + toks[4:]
+                    toks = toks[:1] + ['?'] * (len(toks) - 1)
                 elif name in ('u_out.dat', 'v_out.dat'):
                     toks = toks[:1] + ['?'] * (len(toks) - 1)
-                elif name == 'w_out.dat' and toks[:1] != ['a=']:
+                elif name == 'w_out.dat':
                     toks = ['?'] * len(toks)
-                out.append(r[:4] + toks)
+                out.append(['row', name, ':'] + toks)
+            out.append(['seed-listed', seed_tok if seed_tok is not None else '-'] if is_model else ['seed-listed', '-'])
+            if not is_model:
+                out[-1] = ['seed-listed', WANT_SEED[0] if (WANT_SEED[0] is not None and WANT_SEED[0] in comment_toks) else ('-' if WANT_SEED[0] is None else 'MISSING')]
             return out
-        a, b = wild(impl), wild(model)
+        b = wild(model, True)
+        WANT_SEED[0] = next((x[1] for x in b if x[0] == 'seed-listed' and x[1] != '-'), None)
+        a = wild(impl)
         st['compared_tokens'] += sum(len(x) for x in a)
         if 'ERROR: AddressSanitizer' in out or 'runtime error:' in out:
             st['crashes'] += 1
